@@ -41,6 +41,21 @@ def run_job(job):
             continue
         f, sig = table[name]
         if 'sequential' not in sig.parameters:
+            # single-value-only indicators: nothing to compare, but their compiled loops run under the bounds checker on every
+            # input length like everybody else's
+            for n in (1, 2, 3, 6, 9, 25, 60):
+                X = indlib.series('walk', max(n, 6), rng.randrange(1 << 30))[:n]
+                X2 = indlib.series('walk', max(n, 6), rng.randrange(1 << 30))[:n]
+                try:
+                    indlib.call(name, f, sig, X.copy(), {}, False, X2.copy())
+                    cnt['single_only_calls'] = cnt.get('single_only_calls', 0) + 1
+                except Exception as ex:
+                    cnt['single_only_calls'] = cnt.get('single_only_calls', 0) + 1
+                    if type(ex).__name__ == 'IndexError' and str(ex) == 'index is out of bounds':
+                        viol.append({'key': f'kernel_index_out_of_bounds:{name}',
+                                     'msg': f'{name}() on {n} candles: a compiled loop indexes outside its arrays',
+                                     'witness': {'indicator': name, 'n': n}})
+                        break
             continue
         psets = indlib.param_sets(name, sig, rng, job['nparams'], small=True)
         # a period of 1 is degenerate for many definitions (regression over one point ...): not judged here
@@ -72,6 +87,11 @@ def run_job(job):
                     seq = {k_: (np.array(v_, copy=True) if isinstance(v_, np.ndarray) else v_) for k_, v_ in seq.items()}
                 except Exception as ex:
                     cnt['sequential_raises'] = cnt.get('sequential_raises', 0) + 1
+                    if type(ex).__name__ == 'IndexError' and str(ex) == 'index is out of bounds':
+                        # numba's bounds checker (these workers run with NUMBA_BOUNDSCHECK=1): in production the compiled loop
+                        # would read or write outside its arrays on this input
+                        bad(f'kernel_index_out_of_bounds:{name}', f'{name}({kw}, sequential=True) on {n} candles: a compiled loop '
+                            f'indexes outside its arrays', params=kw, n=n)
                     continue
                 checked = True
                 sigs.append(repr((name, pi, n)))
@@ -139,7 +159,7 @@ def run_job(job):
                         if isinstance(ref, float) and ref != ref:
                             continue
                     i = indlib.equal_values(np.array([s], dtype=object), np.array([ref], dtype=object),
-                                            rel=1e-12 if n <= W else 1e-9, absl=1e-15 if n <= W else 1e-12,
+                                            rel=1e-10 if n <= W else 1e-9, absl=1e-13 if n <= W else 1e-12,
                                             scale=indlib.scale_of(X, a))
                     if i is not None:
                         kind = 'last_value' if n <= W else 'warmup_window'
@@ -161,7 +181,7 @@ def make_jobs(tier, seed):
     chunk = 4
     for i in range(0, len(names), chunk):
         jobs.append({'names': names[i:i + chunk], 'seed': rng.randrange(1 << 30), 'mode': 'bc',
-                     'nparams': 4 if tier == 'quick' else 30, 'lengths': LENGTHS if tier == 'thorough' else [9, 25, 60, 239, 240, 241, 400],
+                     'nparams': 4 if tier == 'quick' else 30, 'lengths': LENGTHS if tier == 'thorough' else [6, 9, 25, 60, 239, 240, 241, 400],
                      'kinds': ['walk', 'lattice', 'gappy', 'alternating', 'zerovol', 'flattail', 'flattail'], 'want_sample': i == 0})
     if tier == 'thorough':
         for rep in range(6):
